@@ -10,9 +10,14 @@ pub struct Iter<'a> {
 impl<'a> Iter<'a> {
     // [start, end)
     pub(super) fn new(bases: &'a [u8], start: usize, end: usize) -> Self {
-        let i = start / 2;
-        let j = end.div_ceil(2);
-        let mut iter = bases[i..j].iter();
+        // An empty range must not borrow the byte an odd `start` falls in.
+        let src = if start < end {
+            &bases[start / 2..end.div_ceil(2)]
+        } else {
+            &[]
+        };
+
+        let mut iter = src.iter();
 
         let front = if start.is_multiple_of(2) {
             None
@@ -20,13 +25,10 @@ impl<'a> Iter<'a> {
             iter.next().map(|&n| discard_front_decoded_bases(n))
         };
 
-        let base_count = end - start;
-
-        // This assumes `bases.len() * 2` is only ever `base_count` or `base_count` + 1.
-        let back = if bases.len() * 2 > base_count {
-            iter.next_back().map(|&n| discard_back_decoded_bases(n))
-        } else {
+        let back = if end.is_multiple_of(2) {
             None
+        } else {
+            iter.next_back().map(|&n| discard_back_decoded_bases(n))
         };
 
         Self { iter, front, back }
